@@ -65,9 +65,11 @@ func (w *directClient) GetFailOverLogs(uint16) ([]gocbcore.FailoverEntry, error)
 
 type directDiscovery struct{ ids []uint16 }
 
-func (v *directDiscovery) Get() []uint16                             { return v.ids }
-func (v *directDiscovery) Close()                                    {}
-func (v *directDiscovery) GetMetric() *stream.VBucketDiscoveryMetric { return &stream.VBucketDiscoveryMetric{} }
+func (v *directDiscovery) Get() []uint16 { return v.ids }
+func (v *directDiscovery) Close()        {}
+func (v *directDiscovery) GetMetric() *stream.VBucketDiscoveryMetric {
+	return &stream.VBucketDiscoveryMetric{}
+}
 
 type c11DirectParams struct {
 	NumVB      int    `json:"num_vb"`
